@@ -39,8 +39,17 @@
   outstanding. The core runs one executor per agent, so every task on the same host is hit; tasks on that host without
   a mark of their own are hit after their reply (`collateral`). The set of tasks hit is part of the observation
   (`(lost i …)`, from the master's task table) and of the model's answer.
+
+  WHEN an answer comes: an outcome may be written `(late BASE D)` (BASE = ok | stay | err, D in ms) — the task does BASE
+  D ms after it got the command; only in the LAST step of a scenario, not together with loss marks. The model settles it
+  with the time-out the code gives that target (`Trans.targetDeadline DlCfg.code`: the per-target copy's), the verdict with
+  the time the transition allows (`Trans.allowed`); the environment choices above are applied to both. Every observed
+  request ends in `(dl d …)`: the `ResponseTimeout` (ms) of the command the master saw go to each commanded task
+  (parallel to the command list); the model answers with what `CommandQueue.commit` gives each target, and
+  `Trans.judgeDl` demands that it is the time allowed.
 -/
 import ControlModel.Model.Transition
+import ControlModel.Model.Deadline
 import ControlModel.Spec.C02
 
 namespace Driver.C02
@@ -77,6 +86,15 @@ def parseMarked : SExp → Option (Outcome × Option Loss)
     pure (o, some { agent := agent, withUpdate := ← upd.bool?, before := before })
   | x => do pure ((← parseOutcome x), none)
 
+/-- An outcome with its delay: `(late BASE D)`, or anything `parseMarked` reads (at once). -/
+def parseTimed : SExp → Option (TOutcome × Option Loss)
+  | .list [.atom "late", base, d] => do
+    let o ← parseOutcome base
+    if !o.replies then none else pure ({ base := o, delay := ← d.nat? }, none)
+  | x => do
+    let m ← parseMarked x
+    pure ({ base := m.1, delay := 0 }, m.2)
+
 /-- One executor per agent: the mark of a task hits every task on its host; the others are hit after their reply. -/
 def collateral (hosts : List String) (ms : List (Option Loss)) : List (Option Loss) :=
   let marked := hosts.zip ms
@@ -88,15 +106,22 @@ def collateral (hosts : List String) (ms : List (Option Loss)) : List (Option Lo
       | some q => q.2.map (fun l => { l with before := false })
       | none => none)
 
-def parseStep (hosts : List String) : SExp → Option SStep
+def parseStep (hosts : List String) : SExp → Option TStep
   | .list (.atom "DIE" :: outs) => do
     if outs.length ≠ hosts.length then none else pure (.die (← outs.mapM? parseOutcome))
   | .list (.atom e :: outs) => do
     if outs.length ≠ hosts.length then none else
-    let ms ← outs.mapM? parseMarked
+    let ms ← outs.mapM? parseTimed
     let ls := ms.map (·.2)
+    -- no delayed answer in a request with a loss (the harness does not script the two together)
+    if ls.any (·.isSome) && ms.any (fun m => m.1.delay != 0) then none else
     pure (.ctl (← Ev.parse? e) (ms.map (·.1)) false (if ls.any (·.isSome) then collateral hosts ls else []))
   | _ => none
+
+/-- Some answer of the step is delayed. -/
+def TStep.delayed : TStep → Bool
+  | .ctl _ outs _ _ => outs.any (fun o => o.delay != 0)
+  | .die _ => false
 
 /-- "h1" → 1, "h2" → 2. -/
 def hostNum (h : String) : Nat := ((h.drop 1).toNat?).getD 0
@@ -110,8 +135,8 @@ structure Offers where
   hosts : List Nat
   rounds : List Round
 
-def parseScenario (x : SExp) : Option (Cfg × Scenario × Option Offers) :=
-  let go (cfg : Cfg) : List SExp → Option (Cfg × Scenario × Option Offers)
+def parseScenario (x : SExp) : Option (Cfg × TScenario × Option Offers) :=
+  let go (cfg : Cfg) : List SExp → Option (Cfg × TScenario × Option Offers)
     | .list (.atom "wf" :: calls :: tasks) :: rest => do
       let ths ← tasks.mapM? parseTask
       let ts := ths.map (·.1)
@@ -121,6 +146,9 @@ def parseScenario (x : SExp) : Option (Cfg × Scenario × Option Offers) :=
           pure (some ({ hosts := ths.map (fun t => hostNum t.2), rounds := ← rs.mapM? parseRound } : Offers), steps)
         | steps => pure (none, steps))
       let ss ← steps.mapM? (parseStep (ths.map (·.2)))
+      -- delayed answers only in the last step: what a task that answers after the core gave up is worth to the NEXT
+      -- command is not modelled
+      if ss.dropLast.any TStep.delayed then none else
       match ss with
       | [] => pure (cfg, { wf := wf, configure := [], steps := [] }, offers)
       -- no loss inside NewEnvironment (the harness does not inject there)
@@ -154,6 +182,12 @@ def obsSx (o : Obs) : SExp :=
        | none => []) ++ (if o.verdictLost then [.atom "verdict-lost"] else []))
   | some e => .list ([.atom "ctl", .atom e.name, .atom (rpcName o.rpc), st, af, cmd] ++
       (if o.lost.isEmpty then [] else [.list (.atom "lost" :: o.lost.map SExp.ofNat)]))
+
+/-- The observation of a request with the time-outs given to its targets at the end. -/
+def tobsSx (o : TObs) : SExp :=
+  match obsSx o.obs with
+  | .list xs => .list (xs ++ [.list (.atom "dl" :: o.dl.map SExp.ofNat)])
+  | x => x
 
 def parseRpc : String → Option Rpc
   | "ok" => some .ok | "err" => some .err | "hang" => some .hang | _ => none
@@ -189,6 +223,15 @@ def parseObs : SExp → Option Obs
   | .list [.atom "ctl", .atom e, .atom r, .atom s, .atom a, .list cmd, .list (.atom "lost" :: lost)] => do
     pure { ev := some (← Ev.parse? e), rpc := ← parseRpc r, state := ← parseSt s, after := ← parseSt a,
            cmd := ← cmd.mapM? SExp.nat?, lost := ← lost.mapM? SExp.nat? }
+  | _ => none
+
+/-- An observed request: `parseObs` on everything but the final `(dl …)`. -/
+def parseTObs : SExp → Option TObs
+  | .list xs =>
+    match xs.getLast? with
+    | some (.list (.atom "dl" :: ds)) => do
+      pure { obs := ← parseObs (.list xs.dropLast), dl := ← ds.mapM? SExp.nat? }
+    | _ => none
   | _ => none
 
 /-- Replies lost with the subscription: in a command with an undeliverable target, the targets that would have
@@ -256,7 +299,8 @@ def variant (sc : Scenario) (lossy w : Bool) : Scenario :=
   let tasks : List Task := sc.wf.tasks.map (fun t => { critical := t.1, active := t.2 = .ok })
   { sc with configure := conf, steps := gate w (afterCommand tasks conf) steps }
 
-def showObs (os : List Obs) : String := toString (SExp.list (os.map obsSx))
+/-- What the model prints: the requests with the time-out `CommandQueue.commit` gives each target (the code as it is). -/
+def showObs (os : List Obs) : String := toString (SExp.list ((withDeadlines DlCfg.code os).map tobsSx))
 
 /-- The model's observation of a scenario with offers rounds: the attempts go into the NewEnvironment entry. -/
 def withAtt (att : Option (List (List Nat))) : List Obs → List Obs
@@ -267,48 +311,56 @@ def processLine (line : String) : String :=
   match SExp.fields line with
   | [inp, impl] =>
     match (SExp.parse inp).bind parseScenario with
-    | some (cfg, sc0, offers) =>
+    | some (cfg, tsc, offers) =>
+      -- delayed answers: the model settles them with the time-out the code gives the target, the verdict with the time
+      -- the transition allows; everything below is done to both (`.1` the model's scenario, `.2` the verdict's)
+      let scM0 : Scenario := tsc.settle (targetDeadline DlCfg.code)
+      let scS0 : Scenario := tsc.settle allowed
       -- offers rounds: the model's acquireTasks first; the rest is evaluated on the workflow it leaves behind
-      let acq := offers.map (fun off => acquire AcqCfg.code (toO sc0 off).wf.descs off.rounds)
-      let sc : Scenario := match offers, acq with
-        | some off, some a => { sc0 with wf := (toO sc0 off).wf.eff a }
-        | _, _ => sc0
+      let acq := offers.map (fun off => acquire AcqCfg.code (toO scM0 off).wf.descs off.rounds)
+      let onEff (s : Scenario) : Scenario := match offers, acq with
+        | some off, some a => { s with wf := (toO s off).wf.eff a }
+        | _, _ => s
+      let scM := onEff scM0
+      let scS := onEff scS0
       let att := acq.map (·.attempts)
       let runM (c : Scenario) : List Obs := withAtt att (run cfg c)
-      let implObs : Option (List Obs) := do (← (← SExp.parse impl).list?).mapM? parseObs
+      let implObs : Option (List TObs) := do (← (← SExp.parse impl).list?).mapM? parseTObs
       let lw := [(false, false), (false, true), (true, false), (true, true)]
-      let cands := lw.map (fun (l, w) => variant sc l w) ++ [{ sc with wf := early sc.wf }]
+      -- the environment choices, as transformations of a scenario
+      let choices : List (Scenario → Scenario) :=
+        lw.map (fun (l, w) => fun (s : Scenario) => variant s l w) ++ [fun (s : Scenario) => { s with wf := early s.wf }]
       -- calls lost in the client: only for the last observed request, only if it has an undeliverable target
-      let lost : List (Scenario × String) :=
+      let lost : List ((Scenario × Scenario) × String) :=
         match implObs with
         | some os =>
           match os.getLast? with
           | some o =>
             let k := os.length - 1
-            if (reqOuts sc k).any (· = .undeliverable) then
+            if (reqOuts scM k).any (· = .undeliverable) then
               lw.map (fun (l, w) =>
-                let c := variant (mapReq (unsent o.cmd) sc k) l w
-                (c, showObs (restrictLast o.cmd (runM c))))
+                let f := fun (s : Scenario) => variant (mapReq (unsent o.obs.cmd) s k) l w
+                ((f scM, f scS), showObs (restrictLast o.obs.cmd (runM (f scM)))))
             else []
           | none => []
         | none => []
       -- (no candidate explains an observation with the atom `verdict-lost`: see the head of the file)
-      let outs : List (Scenario × String) := cands.map (fun c => (c, showObs (runM c))) ++ lost
-      let dflt := variant sc false false
-      let chosen := (outs.find? (fun p => p.2 == impl)).getD (dflt, showObs (runM dflt))
+      let outs : List ((Scenario × Scenario) × String) := choices.map (fun f => ((f scM, f scS), showObs (runM (f scM)))) ++ lost
+      let dflt := (variant scM false false, variant scS false false)
+      let chosen := (outs.find? (fun p => p.2 == impl)).getD (dflt, showObs (runM dflt.1))
       let (spec, hyp) :=
         match implObs with
         | none => (false, "-")
         | some os =>
+          let c := chosen.1.2
           let verdict := match offers with
-            | none => judge chosen.1 os
+            | none => judgeDl (judge c) os
             | some off =>
               -- the chosen environment choices (requests' outcomes; TASK_RUNNING overtaking / ACTIVE notification
               -- dropped) on the scenario as written; what was deployed is judged on the last offers round that took
               -- place according to the observed attempts
-              let c := chosen.1
-              let scripts : Workflow := if c.wf.notifyLost then early sc0.wf else sc0.wf
-              judgeO (toO { wf := scripts, configure := c.configure, steps := c.steps } off) os
+              let scripts : Workflow := if c.wf.notifyLost then early scS0.wf else scS0.wf
+              judgeDl (judgeO (toO { wf := scripts, configure := c.configure, steps := c.steps } off)) os
           match verdict with
           | none => (true, "-")
           | some h => (false, h)
